@@ -124,7 +124,207 @@ fn bulk_smol() -> i32 {
     })
 }
 
+/// C19 atomic: frames of `size` bytes are sent while the peer does not read, each send polled ONCE and dropped if
+/// it cannot complete; as soon as one is abandoned the peer drains everything and one more call is sent to
+/// completion.  On a Linux Unix stream socket a single write(2) of a frame this small is queued whole or refused,
+/// so -- as long as WriteHalf::write offers the whole unsent remainder in every syscall (U8.*.offers_all) -- the
+/// peer sees only whole frames, each at most once, in order.
+fn atomic_call(seq: u32, size: usize) -> M { M::Big { s: format!("{seq:08}{}", "z".repeat(size)) } }
+fn poll_once<F: std::future::Future>(f: F) -> Option<F::Output> {
+    use std::task::{Context, Poll, Wake, Waker};
+    struct Noop;
+    impl Wake for Noop { fn wake(self: std::sync::Arc<Self>) {} }
+    let w = Waker::from(std::sync::Arc::new(Noop));
+    let mut cx = Context::from_waker(&w);
+    let mut f = std::pin::pin!(f);
+    match f.as_mut().poll(&mut cx) { Poll::Ready(o) => Some(o), Poll::Pending => None }
+}
+fn judge_atomic(bytes: &[u8], size: usize, abandoned: u32) -> i32 {
+    let mut seqs: Vec<u32> = Vec::new();
+    let mut bad = 0;
+    let mut small = 0;
+    let mut start = 0;
+    for (i, &b) in bytes.iter().enumerate() {
+        if b == 0 {
+            match serde_json::from_slice::<M>(&bytes[start..i]) {
+                Ok(M::Big { s }) if s.len() == size + 8 => seqs.push(s[..8].parse().unwrap_or(u32::MAX)),
+                Ok(M::Small { .. }) => small += 1,
+                _ => { bad += 1; println!("peer: frame of {} bytes at offset {start} is not a whole frame that was sent", i - start); }
+            }
+            start = i + 1;
+        }
+    }
+    let ordered = seqs.windows(2).all(|w| w[0] < w[1]);
+    let complete = (0..abandoned).all(|s| seqs.contains(&s));
+    println!("size {size}: send #{abandoned} abandoned; peer received {} bytes: {} big frames, {small} small, {bad} corrupted, {} trailing bytes, ordered={ordered} complete={complete}",
+             bytes.len(), seqs.len(), bytes.len() - start);
+    if bad > 0 || !ordered || !complete || small != 1 || start != bytes.len() {
+        println!("REPLAY: FAILS on the real code (an abandoned send of a {size}-byte frame corrupted the stream)");
+        1
+    } else { 0 }
+}
+fn atomic_tokio(size: usize) -> i32 {
+    let rt = tokio::runtime::Builder::new_current_thread().enable_all().build().unwrap();
+    let ls = tokio::task::LocalSet::new();
+    ls.block_on(&rt, async {
+        use tokio::io::AsyncReadExt;
+        let (a, mut b) = tokio::net::UnixStream::pair().unwrap();
+        a.writable().await.unwrap();   // let the reactor learn the socket is writable, so that the first poll really writes
+        let mut conn = zlink_tokio::Connection::new(zlink_tokio::unix::Stream::from(a));
+        let mut seq = 0u32;
+        let abandoned = loop {
+            let m = atomic_call(seq, size);
+            match poll_once(conn.send_call(&zlink_tokio::Call::new(&m))) { Some(r) => r.unwrap(), None => break seq }
+            seq += 1;
+            if seq > 200_000 { println!("socket never filled"); return 2; }
+        };
+        let reader = tokio::task::spawn_local(async move { let mut v = Vec::new(); let _ = b.read_to_end(&mut v).await; v });
+        let r = tokio::time::timeout(Duration::from_secs(20), conn.send_call(&zlink_tokio::Call::new(&M::Small { n: 1 }))).await;
+        if !matches!(r, Ok(Ok(()))) { println!("final send: {r:?}"); }
+        drop(conn);
+        judge_atomic(&reader.await.unwrap(), size, abandoned)
+    })
+}
+fn atomic_smol(size: usize) -> i32 {
+    use futures_lite::{future, AsyncReadExt};
+    future::block_on(async {
+        let (a, b) = std::os::unix::net::UnixStream::pair().unwrap();
+        let a = async_io::Async::new(a).unwrap();
+        let mut b = async_io::Async::new(b).unwrap();
+        let mut conn = zlink_smol::Connection::new(zlink_smol::unix::Stream::from(a));
+        let mut seq = 0u32;
+        let abandoned = loop {
+            let m = atomic_call(seq, size);
+            match poll_once(conn.send_call(&zlink_smol::Call::new(&m))) { Some(r) => r.unwrap(), None => break seq }
+            seq += 1;
+            if seq > 200_000 { println!("socket never filled"); return 2; }
+        };
+        let send = async {
+            let r = conn.send_call(&zlink_smol::Call::new(&M::Small { n: 1 })).await;
+            if r.is_err() { println!("final send: {r:?}"); }
+            drop(conn);
+        };
+        let mut v = Vec::new();
+        let recv = async { let _ = b.read_to_end(&mut v).await; };
+        future::zip(send, recv).await;
+        judge_atomic(&v, size, abandoned)
+    })
+}
+
+/// C20 notified: every sequence of at most `depth` operations over {set, subscribe, poll subscriber i (i < 3)} on a
+/// notified State, then a final drain of every subscriber, checked against the property: each subscriber sees values in
+/// the order they were set (skipping allowed), every item tagged continues=true, after the drain the last item seen is
+/// the most recent value set after it subscribed, and the stream never ends while the State exists.  One-shot: exactly
+/// one reply tagged continues=false, then the end; a dropped notifier ends the stream without a reply.
+/// A search over schedules on the real crates (witness finder), not a proof.
+macro_rules! notified_impl { ($name:ident, $krate:ident) => {
+fn $name(depth: usize) -> i32 {
+    use futures_util::Stream as _;
+    use $krate::notified::{Once, State, Stream};
+    fn poll_stream(s: &mut Stream<u32>) -> std::task::Poll<Option<$krate::Reply<u32>>> {
+        use std::task::{Context, Wake, Waker};
+        struct Noop;
+        impl Wake for Noop { fn wake(self: std::sync::Arc<Self>) {} }
+        let w = Waker::from(std::sync::Arc::new(Noop));
+        let mut cx = Context::from_waker(&w);
+        std::pin::Pin::new(s).poll_next(&mut cx)
+    }
+    // ops: 0 = set, 1 = subscribe, 2.. = poll subscriber (op - 2)
+    let mut seq = vec![0usize; 0];
+    let mut total = 0u64;
+    fn run(ops: &[usize]) -> Result<(), String> {
+        let mut state: State<u32, u32> = State::new(0);
+        let mut next = 1u32;
+        let mut subs: Vec<(Stream<u32>, Vec<u32>, u32)> = Vec::new();   // stream, values seen, value counter at subscription
+        let step = |subs: &mut Vec<(Stream<u32>, Vec<u32>, u32)>, i: usize| -> Result<bool, String> {
+            let (s, seen, since) = &mut subs[i];
+            match poll_stream(s) {
+                std::task::Poll::Ready(Some(r)) => {
+                    if r.continues() != Some(true) { return Err(format!("subscriber {i}: item {:?} is not marked continues=true", r.parameters())); }
+                    let v = *r.parameters().ok_or("item without value")?;
+                    if v <= *since { return Err(format!("subscriber {i}: received {v}, which was set before it subscribed")); }
+                    if let Some(l) = seen.last() { if v <= *l { return Err(format!("subscriber {i}: received {v} after {l} (out of order / duplicate)")); } }
+                    seen.push(v);
+                    Ok(true)
+                }
+                std::task::Poll::Ready(None) => Err(format!("subscriber {i}: the subscription ended while the state still exists")),
+                std::task::Poll::Pending => Ok(false),
+            }
+        };
+        for &op in ops {
+            match op {
+                0 => { if poll_once(state.set(next)).is_none() { return Err("State::set did not complete at once".into()); } if state.get() != next { return Err("get() is not the value just set".into()); } next += 1; }
+                1 => { if subs.len() < 3 { let s = state.stream(); subs.push((s, Vec::new(), next - 1)); } }
+                k => { let i = k - 2; if i < subs.len() { step(&mut subs, i)?; } }
+            }
+        }
+        for i in 0..subs.len() {
+            let mut n = 0;
+            while step(&mut subs, i)? { n += 1; if n > 100 { return Err("endless items".into()); } }
+            let latest = next - 1;
+            let (_, seen, since) = &subs[i];
+            if latest > *since && seen.last() != Some(&latest) {
+                return Err(format!("subscriber {i} (subscribed after value {since}) was drained but its last item is {:?}, not the most recent value {latest}", seen.last()));
+            }
+        }
+        Ok(())
+    }
+    let mut rc = 0;
+    'outer: loop {
+        total += 1;
+        if let Err(e) = run(&seq) {
+            println!("schedule {:?} (0 = set, 1 = subscribe, k >= 2 = poll subscriber k-2): {e}", seq);
+            println!("REPLAY: FAILS on the real code");
+            rc = 1;
+            break;
+        }
+        // next sequence (all lengths up to depth, alphabet 0..5)
+        let mut i = seq.len();
+        loop {
+            if i == 0 { if seq.len() == depth { break 'outer; } seq = vec![0; seq.len() + 1]; break; }
+            i -= 1;
+            if seq[i] < 4 { seq[i] += 1; for j in i + 1..seq.len() { seq[j] = 0; } break; }
+        }
+    }
+    // one-shot: notify before / after the first poll; notifier dropped
+    let once = |notify_first: bool, drop_notifier: bool| -> Result<(), String> {
+        let (tx, mut s): (Once<u32>, Stream<u32>) = Once::new();
+        let mut tx = Some(tx);
+        if !notify_first { if !matches!(poll_stream(&mut s), std::task::Poll::Pending) { return Err("one-shot: ready before any notification".into()); } }
+        if drop_notifier { drop(tx.take()); } else { tx.take().unwrap().notify(7u32); }
+        match poll_stream(&mut s) {
+            std::task::Poll::Ready(Some(r)) if !drop_notifier => { if r.continues() != Some(false) || r.parameters() != Some(&7) { return Err(format!("one-shot reply wrong: {:?} continues={:?}", r.parameters(), r.continues())); } }
+            std::task::Poll::Ready(None) if drop_notifier => {}
+            _ => return Err(format!("one-shot (notify_first={notify_first}, dropped={drop_notifier}): unexpected first result")),
+        }
+        for _ in 0..3 { if !matches!(poll_stream(&mut s), std::task::Poll::Ready(None)) { return Err("one-shot: stream did not end after its single reply".into()); } }
+        Ok(())
+    };
+    for (a, b) in [(true, false), (false, false), (true, true), (false, true)] {
+        if let Err(e) = once(a, b) { println!("{e}\nREPLAY: FAILS on the real code"); rc = 1; }
+    }
+    println!("{}: {total} schedules of at most {depth} operations + 4 one-shot scenarios: {}", stringify!($krate), if rc == 0 { "clean" } else { "FAILED" });
+    rc
+}
+}}
+notified_impl!(notified_tokio, zlink_tokio);
+notified_impl!(notified_smol, zlink_smol);
+
 fn main() {
+    if std::env::args().nth(1).as_deref() == Some("notified") {
+        let depth: usize = std::env::args().nth(3).and_then(|d| d.parse().ok()).unwrap_or(6);
+        let rc = match std::env::args().nth(2).as_deref() { Some("tokio") => notified_tokio(depth), Some("smol") => notified_smol(depth), _ => 2 };
+        std::process::exit(rc);
+    }
+    if std::env::args().nth(1).as_deref() == Some("atomic") {
+        let mut rc = 0;
+        for size in [1_000usize, 6_000, 14_000, 30_000] {
+            let r = match std::env::args().nth(2).as_deref() { Some("tokio") => atomic_tokio(size), Some("smol") => atomic_smol(size), _ => 2 };
+            if r != 0 { rc = r; }
+        }
+        if rc == 0 { println!("clean: only whole frames, each at most once, in order"); }
+        std::process::exit(rc);
+    }
     if std::env::args().nth(1).as_deref() == Some("bulk") {
         let rc = match std::env::args().nth(2).as_deref() { Some("tokio") => bulk_tokio(), Some("smol") => bulk_smol(), _ => 2 };
         std::process::exit(rc);
